@@ -4,6 +4,8 @@
 //! or a witness result.
 mod archive;
 mod cli;
+mod derive;
+mod format;
 mod confid;
 mod enc;
 mod fuzz;
@@ -57,6 +59,8 @@ fn main() {
         "c09" => writer::c09_cases(&mut rng, &tier, &mut out),
         "c01" => archive::c01_cases(&mut rng, &tier, &mut out),
         "keys-tester" => keys::tester(),
+        "c19-tester" => derive::tester(),
+        "c06" => format::c06_cases(&mut rng, &tier, &mut out),
         "c16" => cli::c16_cases(&mut rng, &tier, &mut out),
         "c02" => repair::c02_cases(&mut rng, &tier, &mut out),
         "c05" => repair::c05_cases(&mut rng, &tier, &mut out),
